@@ -29,12 +29,14 @@ LEVEL_NOTE = ("trusts pvf/ref/ctlbytes.py (wire layouts) and pvf/ref/swshadow.py
               "state change precedes the probe")
 RULE = ("a case is (max_buffers, miss_send_len, segment sizes, list of ops) for a switch with 3 ports; an op is one controller-to-switch message "
         "(hello, echo request/reply, vendor, features, get-config, set-config, barrier, port-mod, flow-mod, packet-out, stats request of "
-        "the 7 types or an unknown one, queue-get-config, unknown message type) with an arbitrary xid and a valid or invalid body, or a "
+        "the 7 types or an unknown one, queue-get-config, unknown message type, a fixed-size request with an over-long or truncated body) with an arbitrary xid and a valid or invalid body, or a "
         "frame arrival; a case is non-trivial when it uses at least 3 different message types and contains an invalid request (one for "
         "which OF 1.0 names an error) that is followed by a request which must be answered with a proper reply; distinct by SHA-1 of the "
         "canonical JSON of the case")
 ASSUMPTIONS = [
-  "message bodies are well-formed in length (wrong-length and wrong-version messages belong to C10); padding bytes are zero",
+  "the header's length field always equals the number of bytes sent and the version is 1 (framing and version faults belong to C10); "
+  "fixed-size requests are also sent with bodies that are too long or too short and must then get exactly one OFPBRC_BAD_LEN error "
+  "(OFPBAC_BAD_LEN also accepted when an action's length field is the culprit) and no normal reply; padding bytes are zero",
   "without a barrier a switch may reorder: the content of a reply is compared with the shadow only when no state-changing message that "
   "affects it was sent since the last barrier request; pairing, xid, order and reply type are always judged",
   "where OF 1.0 names no error (port/flow stats for an unknown port or table, queue stats, output to a port that does not exist, "
@@ -559,8 +561,10 @@ class _Run(object):
     special = bool(flags & (cb.OFPFF_EMERG | cb.OFPFF_CHECK_OVERLAP)) and known_cmd and not is_del
     bogus = bkind not in ("none", "live")
     uncertain = known_cmd and not is_del and (bool(errs) or bool(maybe) or bogus)
+    keep = uncertain and cmd != cb.OFPFC_ADD and (special or op.get("keep_cmd", False))
     if uncertain:
-      cmd = cb.OFPFC_ADD                      # the shadow only knows uncertain ADDs
+      if not keep:
+        cmd = cb.OFPFC_ADD                    # the shadow only knows uncertain ADDs ...
       if errs or maybe:
         mi = M_NEVER                          # such a flow must never be hit by a frame of this history
     acts_raw = _enc_actions(acts)
@@ -602,8 +606,16 @@ class _Run(object):
     else:
       kind, e = "none", None
     stored = sh.pool.out.get(bid) if bkind == "live" else None
-    sh.flow_mod(MATCHES[mi], cmd, prio, op.get("cookie", 0), op.get("idle", 0), op.get("hard", 0), flags, out_port, acts_raw,
-                maybe=uncertain and not special)
+    if keep and not special:
+      # ... an uncertain MODIFY / MODIFY_STRICT leaves the table unknown (until everything is deleted)
+      sh.dirty["table"] = True
+      sh.table_known = False
+      self.out.label("uncertain-modify")
+    else:
+      sh.flow_mod(MATCHES[mi], cmd, prio, op.get("cookie", 0), op.get("idle", 0), op.get("hard", 0), flags, out_port, acts_raw,
+                  maybe=uncertain and not special)
+    if special and bkind != "none":
+      self.out.label("refusable-flow-mod-with-buffer:cmd%d:%s" % (cmd, bkind))
     if stored is not None:
       if kind == "none":
         if sh.dirty["ports"]:
@@ -677,6 +689,65 @@ class _Run(object):
           self.out.label("live-buffer-in-refusable-message")
       self.processed = (frame, in_port)
     self.add(cls, raw, kind, errors=e, root=root)
+
+  def op_badlen(self, op):
+    """A request of a fixed-size type whose body is too long or too short (the header's length field agrees
+    with the bytes sent, so framing is intact): OFPBRC_BAD_LEN, 'wrong request length for type'."""
+    x = op["xid"]
+    what = op["what"]
+    n = op.get("n", 4)
+    fill = bytes([op.get("fill", 0)])
+    M = MATCHES[op.get("m", 0) % len(MATCHES)]
+    hw = self.sh.ports[1]["hw_addr"]
+    bad_len = {(cb.OFPET_BAD_REQUEST, cb.OFPBRC_BAD_LEN)}
+    frame = _frame(0, 0, 60)
+    # name -> (well-formed message, natural reply type, may grow, bytes that may be cut)
+    forms = {
+      "features": (cb.features_request(x), cb.OFPT_FEATURES_REPLY, True, 0),
+      "get_config": (cb.get_config_request(x), cb.OFPT_GET_CONFIG_REPLY, True, 0),
+      "barrier": (cb.barrier_request(x), cb.OFPT_BARRIER_REPLY, True, 0),
+      "set_config": (cb.set_config(x, 0, 99), None, True, 4),
+      "port_mod": (cb.port_mod(x, 1, hw, cb.OFPPC_NO_FLOOD, cb.OFPPC_NO_FLOOD), None, True, 24),
+      "qgc": (cb.queue_get_config_request(x, 1), cb.OFPT_QUEUE_GET_CONFIG_REPLY, True, 4),
+      "vendor": (cb.vendor(x, 0x2320), cb.OFPT_VENDOR, False, 4),
+      "flow_mod": (cb.flow_mod(x, M, actions=b""), None, False, 64),
+      "packet_out": (cb.packet_out(x, in_port=1, actions=b"", data=b""), None, False, 8),
+      "stats_header": (cb.stats_request(x, cb.OFPST_DESC), cb.OFPT_STATS_REPLY, False, 4),
+      "stats_desc": (cb.stats_request(x, cb.OFPST_DESC), cb.OFPT_STATS_REPLY, True, 0),
+      "stats_table": (cb.stats_request(x, cb.OFPST_TABLE), cb.OFPT_STATS_REPLY, True, 0),
+      "stats_flow": (cb.stats_request(x, cb.OFPST_FLOW, cb.flow_stats_request_body(M)), cb.OFPT_STATS_REPLY, True, 44),
+      "stats_aggregate": (cb.stats_request(x, cb.OFPST_AGGREGATE, cb.flow_stats_request_body(M)), cb.OFPT_STATS_REPLY, True, 44),
+      "stats_port": (cb.stats_request(x, cb.OFPST_PORT, cb.port_stats_request_body(op.get("port", cb.OFPP_NONE))), cb.OFPT_STATS_REPLY, True, 8),
+      "stats_queue": (cb.stats_request(x, cb.OFPST_QUEUE, cb.queue_stats_request_body()), cb.OFPT_STATS_REPLY, True, 8),
+      "stats_vendor": (cb.stats_request(x, cb.OFPST_VENDOR, cb.vendor_stats_request_body(0x2320)), cb.OFPT_STATS_REPLY, False, 4),
+      # action lists whose length fields disagree with the message
+      "flow_mod_action_len4": (cb.flow_mod(x, M, actions=cb.action_raw(0, b"", length=4)), None, None, None),
+      "flow_mod_action_len12": (cb.flow_mod(x, M, actions=cb.action_raw(0, b"\0\1\0\0" + b"\0" * 4, length=12)), None, None, None),
+      "flow_mod_action_overrun": (cb.flow_mod(x, M, actions=cb.action_raw(0, b"\0\1\0\0", length=16)), None, None, None),
+      "packet_out_actions_len_overrun": (cb.packet_out(x, in_port=1, actions=cb.action_output(2), actions_len=64, data=b""), None, None, None),
+      "packet_out_action_len4": (cb.packet_out(x, in_port=1, actions=cb.action_raw(0, b"", length=4), actions_len=4, data=frame), None, None, None),
+    }
+    full, reply_type, grow, cut = forms[what]
+    if grow is None:
+      raw = full
+      errors = bad_len | {(cb.OFPET_BAD_ACTION, cb.OFPBAC_BAD_LEN)}
+      cls = "badlen/" + what
+    else:
+      if n > 0 and not grow:
+        n = -n
+      if n < 0 and cut == 0:
+        n = -n
+      if n >= 0:
+        n = 1 + (n - 1) % 24 if n else 4
+        body = full[8:] + fill * n
+        cls = "badlen/%s+" % what
+      else:
+        k = 1 + (-n - 1) % cut
+        body = full[8:len(full) - k]
+        cls = "badlen/%s-" % what
+      raw = cb.message(full[1], x, body)
+      errors = bad_len
+    self.add(cls, raw, "error", reply_type=reply_type, errors=errors)
 
   def op_stats(self, op):
     sh = self.sh
@@ -811,6 +882,8 @@ class _Run(object):
     elif o == "unknown":
       self.add("unknown-message-type", cb.message(22 + op["t"] % 234, x, op.get("body", b"")), "error",
                errors={(cb.OFPET_BAD_REQUEST, cb.OFPBRC_BAD_TYPE)})
+    elif o == "badlen":
+      self.op_badlen(op)
     elif o == "frame":
       self.op_frame(op)
     else:
@@ -1081,6 +1154,23 @@ def _grid_ops():
   ops.append({"o": "flow_mod", "m": 5, "cmd": 0, "flags": 4, "buf": {"k": "live", "i": 0}, "acts": [["out", 1, 0]]})
   ops.append({"o": "flow_mod", "m": 5, "cmd": 0, "flags": 4, "idle": 9, "buf": {"k": "unknown", "i": 1}, "acts": []})
   ops.append({"o": "packet_out", "buf": {"k": "live", "i": 0}, "acts": [["out", 1, 0], ["bad", 77]]})
+  # fixed-size requests with a body that is too long or too short
+  for what in ("features", "get_config", "barrier", "stats_desc", "stats_table"):
+    for n in (1, 4, 8):
+      ops.append({"o": "badlen", "what": what, "n": n})
+  for what, cuts in (("set_config", (1, 2, 4)), ("port_mod", (1, 4, 8, 24)), ("qgc", (1, 2, 4)), ("stats_flow", (1, 4, 40, 44)),
+                     ("stats_aggregate", (1, 4, 40, 44)), ("stats_port", (1, 6, 8)), ("stats_queue", (1, 4, 8))):
+    for n in (1, 4, 8, 24):
+      ops.append({"o": "badlen", "what": what, "n": n, "fill": 0})
+    ops.append({"o": "badlen", "what": what, "n": 4, "fill": 0xff})
+    for n in cuts:
+      ops.append({"o": "badlen", "what": what, "n": -n})
+  ops.append({"o": "badlen", "what": "stats_port", "n": 8, "port": 1})
+  for what, cuts in (("vendor", (1, 4)), ("flow_mod", (1, 8, 9, 40, 64)), ("packet_out", (1, 4, 8)), ("stats_header", (1, 2, 4)), ("stats_vendor", (1, 4))):
+    for n in cuts:
+      ops.append({"o": "badlen", "what": what, "n": -n})
+  for what in ("flow_mod_action_len4", "flow_mod_action_len12", "flow_mod_action_overrun", "packet_out_actions_len_overrun", "packet_out_action_len4"):
+    ops.append({"o": "badlen", "what": what})
   ops.append({"o": "packet_out", "acts": [["out", 1, 0]]})
   ops.append({"o": "packet_out", "data": [0, 0, 14], "in_port": cb.OFPP_NONE, "acts": [["out", 1, 0]]})
   return ops
@@ -1107,8 +1197,38 @@ _PROBES = [
 ]
 
 
+_BUFFER_WARMUP = [
+  {"o": "hello", "xid": 1},
+  {"o": "flow_mod", "xid": 2, "m": 1, "cmd": 0, "prio": 7, "acts": [["out", 2, 0]]},      # in_port=1, priority 7: the overlap partner
+  {"o": "barrier", "xid": 3},
+  {"o": "frame", "port": 1, "dst": 1, "src": 0, "len": 64},                              # misses: buffer
+  {"o": "frame", "port": 2, "dst": 2, "src": 1, "len": 80},                              # misses: buffer
+  {"o": "packet_out", "xid": 4, "buf": {"k": "live", "i": 0}, "acts": [["out", 1, 0]]},  # one buffer is used now
+  {"o": "barrier", "xid": 5},
+]
+
+
+def _refusal_grid():
+  """flow-mods the switch refuses (emergency flow; emergency flow with timeout; CHECK_OVERLAP against the
+  in_port=1 entry of the same priority) x command x buffer id: exactly one error each."""
+  causes = [{"flags": 4, "m": 5, "prio": 7}, {"flags": 5, "m": 5, "prio": 7}, {"flags": 4, "idle": 9, "m": 5, "prio": 7},
+            {"flags": 2, "m": 3, "prio": 7}, {"flags": 3, "m": 6, "prio": 7}]
+  for cause in causes:
+    for cmd in (0, 1, 2):
+      for buf in ({"k": "live", "i": 0}, {"k": "used", "i": 0}, {"k": "unknown", "i": 0}, {"k": "unknown", "i": 3}, {"k": "zero"}, None):
+        for acts in ([["out", 3, 0]], [], [["bad", 12]]):
+          o = {"o": "flow_mod", "cmd": cmd, "buf": buf, "acts": acts, "cookie": 3}
+          o.update(cause)
+          yield o
+
+
 def _enum(tier):
   xids = [0, 1, 0x80000000, 0xffffffff]
+  for o in _refusal_grid():
+    for x in ((5, 0xffffffff) if tier == "thorough" else (5,)):
+      o2 = dict(o)
+      o2["xid"] = x
+      yield {"max_buffers": 2, "miss_send_len": 128, "seg": [], "ops": _BUFFER_WARMUP + [o2] + _PROBES}
   for op in _grid_ops():
     for x in xids:
       o = dict(op)
@@ -1205,9 +1325,22 @@ def _s_op():
   )
   frame = _fd(o=J("frame"), port=st.integers(0, N_PORTS - 1), dst=st.integers(0, 2), src=st.integers(0, 1),
               len=st.sampled_from([14, 60, 64, 100, 129, 300]), fill=st.integers(0, 255))
+  anybuf = st.sampled_from([{"k": "live", "i": 0}, {"k": "live", "i": 1}, {"k": "used", "i": 0}, {"k": "unknown", "i": 0},
+                             {"k": "unknown", "i": 2}, {"k": "zero"}, {"k": "live?", "i": 0}])
+  flow_refused = _fd(o=J("flow_mod"), xid=x, m=st.integers(0, 7), cmd=st.sampled_from([0, 1, 1, 2, 2]), prio=st.sampled_from([0, 1, 100, 0x8000]),
+                     cookie=J(0), idle=st.sampled_from([0, 0, 10]), hard=J(0), flags=st.sampled_from([4, 4, 5, 2, 2, 3, 6]),
+                     out_port=J(cb.OFPP_NONE), acts=good_acts, buf=anybuf)
+  flow_keep = _fd(o=J("flow_mod"), xid=x, m=st.integers(0, 7), cmd=st.sampled_from([1, 2]), prio=st.sampled_from([0, 1, 100, 0x8000]),
+                  cookie=J(0), idle=J(0), hard=J(0), flags=J(0), out_port=J(cb.OFPP_NONE), acts=_s_acts(), buf=anybuf, keep_cmd=J(True))
+  whats = ["features", "get_config", "barrier", "set_config", "port_mod", "qgc", "vendor", "flow_mod", "packet_out", "stats_header",
+           "stats_desc", "stats_table", "stats_flow", "stats_aggregate", "stats_port", "stats_queue", "stats_vendor",
+           "stats_flow", "stats_aggregate", "stats_port", "stats_queue",
+           "flow_mod_action_len4", "flow_mod_action_len12", "flow_mod_action_overrun", "packet_out_actions_len_overrun", "packet_out_action_len4"]
+  badlen = _fd(o=J("badlen"), xid=x, what=st.sampled_from(whats), n=st.one_of(st.integers(1, 24), st.integers(-72, -1), st.sampled_from([4, 8, -4])),
+               fill=st.sampled_from([0, 0, 0xff, 1]), m=st.integers(0, 7), port=st.sampled_from([cb.OFPP_NONE, 1, 2]))
   # Hypothesis flattens nested one_of()s, so the mix is drawn explicitly: (weight, strategy)
   table = [(10, simple), (14, barrier), (4, set_config), (7, port_mod), (14, flow_ok), (6, pout_ok), (8, flow_mod), (1, wipe),
-           (8, packet_out), (18, stats), (16, frame)]
+           (8, packet_out), (18, stats), (16, frame), (4, flow_refused), (2, flow_keep), (7, badlen)]
   kinds = []
   for i, (wgt, _) in enumerate(table):
     kinds += [i] * wgt
